@@ -19,7 +19,7 @@ from valida.rules import Rule
 from valida.schema import Schema
 
 META = {
-    "rule": "every single rule (24 paths x 14 conditions x 3 casts), every ordered pair over a 12-rule pool and "
+    "rule": "every single rule (24 paths x 14 conditions x 3 casts), every ordered pair over a 14-rule pool (incl. cast-only rules), 113 schemas composed with add_schema (4 roots) and "
             "every ordered triple over a 6-rule pool; a case is one schema, its rules individually and as a whole "
             "serialised -> json text -> rebuilt, compared on every probe document; non-trivial = rebuilt and "
             "compared on all documents with at least one rule tested on some document",
@@ -68,8 +68,25 @@ POOL12 = [T.rule(P(PATHS[i]), CONDS[j], CASTS[k]) for i, j, k in
            (13, 7, 0), (22, 1, 1), (23, 10, 0)]]
 
 
+POOL12 += [T.rule(P(PATHS[1]), T.NULL, CASTS[2]), T.rule(P(PATHS[22]), T.NULL, CASTS[1])]   # cast-only rules
+
+# schemas composed with add_schema: ("composed", target rules, source rules, root parts)
+ROOTS = [(), (("prim", "a"),), (("prim", "m"),), (gen.BARE[0],)]
+
+
+def composed():
+    out = []
+    for a in POOL12[1:14:2]:
+        for b in POOL12[::2]:
+            for root in ROOTS:
+                out.append(("composed", (a,), (b,), root))
+    out.append(("composed", (POOL12[1], POOL12[3]), (POOL12[12], POOL12[2]), ROOTS[1]))
+    return out
+
+
 def schemas(tier):
     out = [("schema", (r,)) for r in rule_terms()]
+    out += composed()
     out += [("schema", pair) for pair in itertools.product(POOL12, repeat=2)]
     if tier == "thorough":
         out += [("schema", tri) for tri in itertools.product(POOL12[:6], repeat=3)]
@@ -119,6 +136,8 @@ def observe(schema, doc):
 
 
 def sig_of(st):
+    if st[0] == "composed":
+        return "composed|" + "+".join(b for _, b in st[1][0][3] + st[2][0][3]) or "nocast"
     r = st[1][0]
     return "%s|%s|%s" % (shape(r[1]), cshape(r[2]), "+".join(b for _, b in r[3]) or "nocast")
 
@@ -128,7 +147,12 @@ def check_case(res, st, key):
     res.state(*key)
     case = {"schema": st}
     try:
-        x = T.build_schema(st)
+        if st[0] == "composed":
+            from valida.datapath import DataPath
+            x = T.build_schema(("schema", st[1]))
+            x.add_schema(T.build_schema(("schema", st[2])), DataPath(*[T.build_part(p) for p in st[3]]))
+        else:
+            x = T.build_schema(st)
     except BaseException as e:
         res.violation("build:%s" % type(e).__name__, "building %s raised %r" % (T.show(st), e), case, observed=repr(e))
         return
